@@ -24,12 +24,12 @@ open Goyang.Model Goyang.Spec.Tree Goyang.Lemmas.Tree
 def isModKw (n : Stmt) : Bool := n.kw == "module" || n.kw == "submodule"
 
 /-- The calls of `toEntry` that `processAll` makes, directly or by recursion. -/
-structure InvT (env : Env) (root : Mod) (scope : List Stmt) (n : Stmt) : Prop where
+structure InvT (env : Env) (root : Mod) (sc : List Stmt) (n : Stmt) : Prop where
   root_mem : root ∈ env.reg.mods
   node : Fuel.Sub n root.stmt
-  scope : ∀ s ∈ scope, Fuel.Sub s root.stmt
+  scope : ∀ s ∈ sc, Fuel.Sub s root.stmt
   top : isModKw n = true → n = root.stmt
-  topScope : isModKw n = true → scope = []
+  topScope : isModKw n = true → sc = []
 
 theorem InvT.ofMod {env : Env} {m : Mod} (hm : m ∈ env.reg.mods) : InvT env m [] m.stmt :=
   ⟨hm, .refl _, fun _ h => (by cases h), fun _ => rfl, fun _ => rfl⟩
@@ -376,9 +376,10 @@ structure ClosedT (env : Env) (F : Frame) : Prop where
     (n.kw = "grouping" ∨ n.kw = "leaf" ∨ n.kw = "leaf-list" ∨ n.kw = "uses") → F.PX root scope n e
   pxErr : ∀ (root : Mod) (scope : List Stmt) (n : Stmt) (cls : String), InvT env root scope n →
     F.PX root scope n (errorEntry root n cls)
-  pxDir : ∀ (rec : Rec) (root : Mod) (scope : List Stmt) (n : Stmt) (visiting : List NodeId) (st : TState) (S : List Nat)
-    (isMod : Bool), InvT env root scope n → RecOKT env F rec → StOKT F S st → isMod = isModKw n →
-    F.PX root scope n ((fieldOrder n.kw).foldl (stepFn env rec root n (n :: scope) visiting isMod) (e0 root n, st)).1
+  /-- the directory case, for the recursion as it is (`rec = toEntry env fuel`) -/
+  pxDir : ∀ (fuel : Nat) (root : Mod) (scope : List Stmt) (n : Stmt) (visiting : List NodeId) (st : TState) (S : List Nat)
+    (isMod : Bool), InvT env root scope n → RecOKT env F (toEntry env fuel) → StOKT F S st → isMod = isModKw n →
+    F.PX root scope n ((fieldOrder n.kw).foldl (stepFn env (toEntry env fuel) root n (n :: scope) visiting isMod) (e0 root n, st)).1
 
 /-- A `Closed` entry invariant is a `ClosedT` frame with nothing else tracked. -/
 theorem closedT_of_closed {env : Env} {PE : Entry → Prop} (h : Closed env PE) : ClosedT env { PE := PE } where
@@ -749,7 +750,8 @@ theorem stOKT_weaken (x : Nat) (st : TState) (h : StOKT F S st) : StOKT F (x :: 
 
 include hrec in
 theorem dirBody_okT (st : TState) (hst : StOKT F S st) (isMod : Bool) (hm : isMod = isModKw n)
-    (hmk : isMod = true → kindOfKw n.kw = .directory) :
+    (hmk : isMod = true → kindOfKw n.kw = .directory)
+    (hpxd : F.PX root scope n ((fieldOrder n.kw).foldl (stepFn env rec root n (n :: scope) visiting isMod) (e0 root n, st)).1) :
     F.PE (dirBody env rec root scope n visiting st isMod).1 ∧
       StOKT F S (dirBody env rec root scope n visiting st isMod).2 ∧
       F.PX root scope n (dirBody env rec root scope n visiting st isMod).1 := by
@@ -761,7 +763,7 @@ theorem dirBody_okT (st : TState) (hst : StOKT F S st) (isMod : Bool) (hm : isMo
     have hrec' : RecOKT env F rec := hrec
     have := steps_okT hC hrec root scope n visiting (root.seq :: S) inv true hm (fun _ => List.mem_cons_self)
       st (stOKT_weaken S _ st hst)
-    have hpx := hC.pxDir rec root scope n visiting st S true inv hrec' hst hm
+    have hpx := hpxd
     have hkind := (rootKeep_fold_steps env rec root n (n :: scope) visiting true (fieldOrder n.kw) (e0 root n, st)).2.1
     refine ⟨this.1, ⟨⟨?_, this.2.base.gcache, this.2.base.augs, ?_, ?_⟩, this.2.rows, ?_⟩, hpx⟩
     · intro p hp
@@ -789,7 +791,7 @@ theorem dirBody_okT (st : TState) (hst : StOKT F S st) (isMod : Bool) (hm : isMo
     simp only [Bool.false_eq_true, if_false]
     have hrec' : RecOKT env F rec := hrec
     have := steps_okT hC hrec root scope n visiting S inv false hm (fun h => absurd h (by simp)) st hst
-    have hpx := hC.pxDir rec root scope n visiting st S false inv hrec' hst hm
+    have hpx := hpxd
     split
     · exact ⟨this.1, ⟨⟨this.2.base.cache, fun p hp => by
         rcases List.mem_append.mp hp with hp | hp
@@ -800,7 +802,9 @@ theorem dirBody_okT (st : TState) (hst : StOKT F S st) (isMod : Bool) (hm : isMo
 
 include hrec in
 /-- One level of `toEntry` keeps the invariant, given that the recursive calls do. -/
-theorem toEntryBody_okT (fuel : Nat) (st : TState) (hst : StOKT F S st) :
+theorem toEntryBody_okT (fuel : Nat) (st : TState) (hst : StOKT F S st)
+    (hpxd : ∀ (isMod : Bool) (vis : List NodeId), isMod = isModKw n →
+      F.PX root scope n ((fieldOrder n.kw).foldl (stepFn env rec root n (n :: scope) vis isMod) (e0 root n, st)).1) :
     F.PE (toEntryBody env fuel rec root scope n visiting st).1 ∧
       StOKT F S (toEntryBody env fuel rec root scope n visiting st).2 ∧
       F.PX root scope n (toEntryBody env fuel rec root scope n visiting st).1 := by
@@ -837,7 +841,7 @@ theorem toEntryBody_okT (fuel : Nat) (st : TState) (hst : StOKT F S st) :
               · rename_i g groot gscope hfg
                 obtain ⟨r1, r2, _⟩ := hrec _ _ _ _ st S (inv.uses hfg) hst
                 exact ⟨r1, r2, hC.pxTriv root scope n _ (Or.inr (Or.inr (Or.inr (by simpa using hu))))⟩
-            · refine dirBody_okT hC hrec root scope n _ S inv st hst _ rfl ?_
+            · refine dirBody_okT hC hrec root scope n _ S inv st hst _ rfl ?_ (hpxd _ _ rfl)
               intro hm
               simp only [Bool.or_eq_true, beq_iff_eq] at hm
               rcases hm with hm | hm <;> rw [hm] <;> decide
@@ -856,6 +860,7 @@ theorem toEntry_okT {env : Env} {F : Frame} (hC : ClosedT env F) (fuel : Nat) : 
   | succ fuel ih =>
     intro root scope n visiting st S inv hst
     have := toEntryBody_okT hC ih root scope n visiting S inv fuel st hst
+      (fun isMod vis hm => hC.pxDir fuel root scope n vis st S isMod inv ih hst hm)
     rw [toEntry_succ]
     exact ⟨this.1, this.2.1, toEntryBody_shape _ _ _ _ _ _ _ _, toEntryBody_shape2 _ _ _ _ _ _ _ _,
       toEntryBody_shape3 _ _ _ _ _ _ _ _, this.2.2⟩
